@@ -414,7 +414,9 @@ Section Interp.
   Definition attribute (o : val) (a : string) (st : state) : outcome val :=
     match o with
     | VDict d => match dict_get d (VStr a) with Some v => Ok v st | None => Exc "AttributeError" st end
-    | _ => Stuck "attribute of a non-object"
+    | _ => ext ("$attr." ++ a) [o] [] st   (* attribute of a value that is not an object of the subset
+                                              (tensor.device, tensor.dtype): ask [ext]; a unit's [ext] that does
+                                              not know the name answers Stuck, as before *)
     end.
 
   Fixpoint eval (e : expr) (st : state) {struct e} : outcome val :=
@@ -448,7 +450,9 @@ Section Interp.
     | ESub o k => bind (eval o st) (fun ov st1 => bind (eval k st1) (fun kv st2 => subscript ov kv st2))
     | EBin op a b => bind (eval a st) (fun av st1 => bind (eval b st1) (fun bv st2 =>
                        match binop_eval op av bv st2 with
-                       | Stuck _ => ext "operator" [VStr (match op with Pow => "pow" | _ => "?" end); av; bv] [] st2
+                       | Stuck _ => ext "operator" [VStr (match op with
+                                                          | Pow => "pow" | Add => "add" | Sub => "sub" | Mul => "mul"
+                                                          | _ => "?" end); av; bv] [] st2
                        | o => o
                        end))
     | ENeg a => bind (eval a st) (fun av st1 =>
